@@ -80,8 +80,17 @@ def _exact_case(rng, cls, big=False):
     scale = 1.0
     if cls == "scale":
         scale = 2.0 ** rng.choice([-20, 20])
+    elif cls == "tiny":      # grid steps far below any absolute tolerance (1e-8, 1e-10, 1e-12, ...): 2^-34 ~ 6e-11
+        scale = 2.0 ** -rng.choice([34, 37, 40, 44, 50, 64, 100, 300])
+    elif cls == "huge":
+        scale = 2.0 ** rng.choice([40, 64, 100, 300])
     step = (2.0 ** e) * scale
     start = rng.randint(-8, 8) * 0.25 * scale
+    if cls == "offset":      # short bars far from the origin: |start| = 2^10..2^30, step 2^-14..2^-2, at most 47 bits
+        k = rng.randint(10, 30)
+        e = rng.randint(max(-14, k - 42), -2)
+        step = 2.0 ** e
+        start = rng.choice([-1.0, 1.0]) * 2.0 ** k + rng.randint(-8, 8) * step
     stop = start + m * step
     nb = rng.randint(1, 12 if big else 6)
     bars = []
@@ -191,6 +200,78 @@ def _tol_case_both(rng, big=False):
             "rep": "float", "fix": "both"}
 
 
+SLACK_REL = 1e-12     # tolerance of the magnitude classes, relative to max(|start|, |stop|) (no absolute floor)
+MAG_KINDS = ["tiny", "tiny", "tiny", "tiny", "offset", "offset", "offset", "huge", "unit"]
+
+
+def _mag_ends(rng, kind):
+    """(start, width, margin) of the magnitude classes; margin = distance (in steps) kept from the half-way points"""
+    if kind == "tiny":       # coordinates of order 1e-7 .. 1e-13 (seconds for nanosecond data), rarely far smaller
+        scale = 10.0 ** rng.choice([-rng.uniform(7, 13), -rng.uniform(8, 11), -rng.uniform(9, 10), -rng.choice([20, 60, 150, 290])])
+        return rng.choice([rng.uniform(-5, 5), 0.0, rng.uniform(0, 1)]) * scale, rng.choice([rng.uniform(0.1, 10), 1.0]) * scale, 1e-6
+    if kind == "huge":
+        scale = 10.0 ** rng.choice([rng.uniform(8, 15), rng.choice([30, 100, 290])])
+        return rng.choice([rng.uniform(-5, 5), 0.0]) * scale, rng.uniform(0.1, 10) * scale, 1e-6
+    if kind == "offset":     # short bars far from the origin: |start| 1e3..1e7, width 1e-7..1e-2 of it
+        off = rng.choice([-1.0, 1.0]) * 10.0 ** rng.uniform(3, 7)
+        return off, abs(off) * 10.0 ** rng.uniform(-7, -2), 1e-3
+    return rng.choice([rng.uniform(-5, 5), 0.0]), rng.choice([rng.uniform(0.1, 10), 1.0]), 1e-6
+
+
+def _mag_case(rng, kind, big=False, fix=None):
+    """Magnitude classes of the tolerance family: random doubles at tiny / huge absolute scales and at large offsets
+    with short bars.  Compared within SLACK_REL * max(|start|, |stop|): every value the code produces is j * step,
+    wrong by a few ulp of the larger grid end at most.  A quarter of the cases with one / no grid end fixed."""
+    for _ in range(200):
+        start, width, margin = _mag_ends(rng, kind)
+        stop = start + width
+        n = rng.choice([rng.randint(2, 40), rng.randint(5, 40), rng.randint(10, 40)] + ([rng.randint(41, 120)] if big else []))
+        fs, fe = Fraction(start), Fraction(stop)
+        if not fs < fe:
+            continue
+        step0 = (fe - fs) / (n - 1)
+        mg = Fraction(margin)
+
+        def away(x, s0, st):
+            u = (Fraction(x) - s0) / st
+            return abs(u - (u.numerator // u.denominator) - Fraction(1, 2)) > mg
+
+        def pt():
+            for _ in range(100):
+                x = rng.uniform(start, stop)
+                r = rng.random()
+                if r < 0.1:
+                    x = rng.choice([start, stop])
+                elif r < 0.25:   # near (not at) a node
+                    x = min(stop, max(start, float(fs + rng.randint(0, n - 1) * step0) + rng.uniform(-1, 1) * 1e-2 * float(step0)))
+                if fs <= Fraction(x) <= fe and away(x, fs, step0):
+                    return x
+            return start
+        bars = []
+        for _ in range(rng.randint(1, 10 if big else 6)):
+            b, d = pt(), pt()
+            if b > d:
+                b, d = d, b
+            if rng.random() < 0.05:
+                d = b
+            bars.append([b, d])
+            if rng.random() < 0.08:
+                bars.append([b, d])
+        fx = fix or rng.choice(["both", "both", "both", "both", "both", "none", "start", "stop"])
+        if fx != "both":
+            s1 = fs if fx == "start" else min(Fraction(b) for b, _ in bars)
+            e1 = fe if fx == "stop" else max(Fraction(d) for _, d in bars)
+            if not s1 < e1:
+                continue
+            st1 = (e1 - s1) / (n - 1)
+            if not all(away(x, s1, st1) for bd in bars for x in bd):
+                continue
+        return {"cls": "mag_" + kind, "family": "tol", "slack_rel": SLACK_REL, "dgms": [bars], "hom_deg": 0, "n": n,
+                "start": start if fx in ("both", "start") else None, "stop": stop if fx in ("both", "stop") else None,
+                "rep": "float", "fix": fx}
+    raise RuntimeError("no magnitude case")
+
+
 LAYOUTS = ["F", "strided", "readonly"]
 
 
@@ -199,8 +280,10 @@ def _decorate(rng, c):
     r = rng.random()
     if r < 0.10:
         c["layout"] = rng.choice(LAYOUTS)
-    elif r < 0.16 and c["family"] == "exact":
-        c["dtype"] = "float32"          # applied only when every end point is a binary32 number (dyadic grids: yes)
+    elif r < 0.16 and c["family"] == "exact" and c["cls"] != "offset":
+        # applied only when every end point is a binary32 number (dyadic grids: yes).  Not for the offset class:
+        # PersLandscapeExact computes mid-points in the dtype of its input, which is not exact in binary32 there
+        c["dtype"] = "float32"
     return c
 
 
@@ -298,8 +381,10 @@ OPS1 = ["mul", "div", "neg", "norms", "slice", "recompute", "badgrid"]
 def _common_grid_family(rng):
     """2-4 diagrams of different sizes on one grid fixed by the user (what one has before forming sums / means)"""
     for _ in range(50):
-        kind = rng.choice(["exact", "tol", "int"])
-        if kind == "exact":
+        kind = rng.choice(["exact", "tol", "int", "mag"])
+        if kind == "mag":
+            base = _mag_case(rng, rng.choice(["tiny", "offset"]), fix="both")
+        elif kind == "exact":
             base = _exact_case(rng, rng.choice(["mixed", "off_grid", "half_tie", "dup"]))
             base["start"], base["stop"] = (base["start"], base["stop"]) if base["fix"] == "both" else (None, None)
         elif kind == "tol":
@@ -325,6 +410,19 @@ def _common_grid_family(rng):
     raise RuntimeError("no common-grid family")
 
 
+def _rescaled(c, k):
+    """the same case in other units: every finite coordinate and grid end times 2^k (exact in binary64, so the
+    position of every end point relative to the grid - and with it the family of the case - is unchanged)"""
+    f = 2.0 ** k
+    d = dict(c)
+    d["dgms"] = [[[x if x == "inf" else x * f for x in bd] for bd in dg] for dg in c["dgms"]]
+    d["start"] = None if c["start"] is None else c["start"] * f
+    d["stop"] = None if c["stop"] is None else c["stop"] * f
+    d.pop("dtype", None)
+    d["rep"] = "float"
+    return d
+
+
 def _histories(rng, n):
     """Call histories in one process (harness/history.py): every step is an ordinary case and must satisfy the
     ordinary predicate.
@@ -336,7 +434,16 @@ def _histories(rng, n):
                   first grid, with a rejected call (degree out of range) in between."""
     hs = []
     for i in range(n):
-        if i % 3 != 2:
+        if i % 7 == 6:
+            # scales: one diagram shape in several units (1, 2^-10 .. 2^-50, 2^+30) in one process, objects shared,
+            # and back to the first unit: nothing may be remembered under a key that is blind to the scale
+            base = (_exact_case(rng, rng.choice(["mixed", "off_grid", "half_tie", "defaults"])) if rng.random() < 0.6
+                    else _mag_case(rng, "unit"))
+            ks = rng.sample([-10, -20, -30, -34, -40, -50, 30], rng.randint(2, 4))
+            steps = [_step(base)] + [_step(_rescaled(base, k), [{"op": rng.choice(OPS1), "x": 2.0}] if rng.random() < 0.3 else None)
+                                     for k in ks] + [_step(base)]
+            hs.append(history.make("scales", steps))
+        elif i % 3 != 2:
             fam = _common_grid_family(rng)
             first, again = [], []
             for j, c in enumerate(fam):
@@ -352,7 +459,9 @@ def _histories(rng, n):
             rng.shuffle(again)
             hs.append(history.make("operands", first + again))
         else:
-            base = _exact_case(rng, rng.choice(["mixed", "off_grid", "off_grid", "inf", "defaults"])) if rng.random() < 0.6 else _tol_case(rng)
+            r = rng.random()
+            base = (_exact_case(rng, rng.choice(["mixed", "off_grid", "off_grid", "inf", "defaults", "tiny", "offset"])) if r < 0.6
+                    else _tol_case(rng) if r < 0.85 else _mag_case(rng, rng.choice(["tiny", "offset"])))
             steps = [_step(base, [{"op": rng.choice(OPS1), "x": 2.0}])]
             exact_both = base["family"] == "exact" and base["start"] is not None and base["stop"] is not None
             kinds = ["reject", "layout", "layout2"] + (["n"] if base["family"] == "exact" else []) + (["wide", "n2"] if exact_both else [])
@@ -436,6 +545,55 @@ def _big_case(rng, kind):
     return c
 
 
+FINE_KINDS = ["fine_exact", "fine_tol"]
+
+
+def _fine_case(rng, kind):
+    """Fine grids: a few bars on 1000-5000 nodes, so that the grid STEP is tiny although the coordinates are not
+    (and tinier still at scales 2^-20 / 1e-7).  Judged like the size class: all depths at a sample of nodes - those
+    around every end point and mid-point of a bar, the first and the last ones; the Coq model is not run."""
+    if kind == "fine_exact":
+        m = rng.choice([1024, 2048, 4096])
+        step = 2.0 ** rng.randint(-3, 1) * 2.0 ** -rng.choice([0, 10, 20, 30, 40])
+        start = rng.randint(-8, 8) * step
+        stop = start + m * step
+        qs = []
+        for _ in range(rng.randint(2, 4)):
+            qb, qd = rng.randint(0, 4 * m), rng.randint(0, 4 * m)
+            if rng.random() < 0.4:
+                qd = min(4 * m, qb + rng.randint(1, 60))     # a short bar
+            qs.append((min(qb, qd), max(qb, qd)))
+        bars = [[start + qb * step / 4, start + qd * step / 4] for qb, qd in qs]
+        near = [q // 4 for bd in qs for q in (bd[0], bd[1], (bd[0] + bd[1]) // 2)]
+        c = {"family": "exact", "n": m + 1, "start": start, "stop": stop}
+    else:
+        for _ in range(100):
+            n = rng.choice([1100, 1500, 2500, 4100, 5000])
+            scale = 10.0 ** -rng.choice([0, 0, 3, 5, 6, 7, 8])
+            start = rng.choice([0.0, rng.uniform(-5, 5)]) * scale
+            stop = start + rng.uniform(0.5, 8) * scale
+            fs, fe = Fraction(start), Fraction(stop)
+            step = (fe - fs) / (n - 1)
+            bars = []
+            for _ in range(rng.randint(2, 4)):
+                b, d = rng.uniform(start, stop), rng.uniform(start, stop)
+                if rng.random() < 0.4:
+                    d = min(stop, b + rng.uniform(0.3, 15) * float(step))
+                bars.append([min(b, d), max(b, d)])
+            us = [(Fraction(x) - fs) / step for bd in bars for x in bd]
+            if all(abs(u - (u.numerator // u.denominator) - Fraction(1, 2)) > Fraction(1, 10 ** 6) for u in us):
+                break
+        near = [int((Fraction(x) - fs) / step) for b, d in bars for x in (b, d, (b + d) / 2)]
+        c = {"family": "tol", "slack_rel": SLACK_REL, "n": n, "start": start, "stop": stop}
+    n = c["n"]
+    cols = set([0, 1, n - 2, n - 1] + [rng.randrange(n) for _ in range(4)])
+    for i in near:
+        cols.update(j for j in (i - 1, i, i + 1, i + 2) if 0 <= j < n)
+    c.update({"cls": kind, "dgms": [bars], "hom_deg": 0, "rep": "float", "big": True, "cols": sorted(cols), "vec": False,
+              "fix": "both"})
+    return c
+
+
 def generate(rng, tier):
     n_exact, n_tol = (420, 180) if tier == "quick" else (7000, 3000)
     classes = ["on_grid", "half_tie", "off_grid", "mixed", "mixed", "narrow", "defaults", "inf", "scale", "dup"]
@@ -451,6 +609,13 @@ def generate(rng, tier):
     for i in range(24 if tier == "quick" else 400):
         cases.append(_int_exact_case(rng, big and i % 4 == 0))
         cases.append(_int_tol_case(rng, big and i % 4 == 0))
+    # magnitudes: tiny / huge absolute scales, large offsets with short bars (exact and tolerance family), fine grids
+    for i in range(36 if tier == "quick" else 900):
+        cases.append(_decorate(rng, _exact_case(rng, ["tiny", "tiny", "offset", "tiny", "offset", "huge"][i % 6], big and i % 4 == 0)))
+    for i in range(36 if tier == "quick" else 900):
+        cases.append(_decorate(rng, _mag_case(rng, MAG_KINDS[i % len(MAG_KINDS)], big and i % 4 == 0)))
+    for i in range(3 if tier == "quick" else 18):
+        cases.append(_fine_case(rng, FINE_KINDS[i % 3 != 0]))
     if big:
         cases += _exhaustive()
     # malformed stream: degree out of range, nothing finite in the diagram
@@ -467,7 +632,7 @@ def generate(rng, tier):
         cases.append(c)
     for c in cases:
         c["vec"] = False if c.get("big") else _vec_ok(c)
-    return cases + _histories(rng, 21 if tier == "quick" else 240)
+    return cases + _histories(rng, 28 if tier == "quick" else 320)
 
 
 def _exhaustive():
@@ -547,13 +712,16 @@ def _build_arr(c, dg):
     import numpy as np
     a = np.array([[_f(b), _f(d)] for b, d in dg], dtype=float).reshape(-1, 2)
     fin = bool(a.size) and bool(np.all(np.isfinite(a)))
-    if c.get("rep") == "int" and fin and np.all(a == np.round(a)):
+    if c.get("rep") == "int" and fin and np.all(a == np.round(a)) and np.all(np.abs(a) < 2 ** 53):
         a = a.astype(int)
     dt = c.get("dtype", "float")
     if dt in ("int64", "int32") and fin and np.all(a == np.round(a)) and np.all(np.abs(a) < 2 ** 30):
         a = a.astype(dt)
-    elif dt == "float32" and a.dtype.kind == "f" and np.all(a.astype(np.float32).astype(float) == a):
-        a = a.astype(np.float32)   # inf stays inf
+    elif dt == "float32" and a.dtype.kind == "f":
+        with np.errstate(over="ignore"):
+            a32 = a.astype(np.float32)
+        if np.all(a32.astype(float) == a):
+            a = a32                    # inf stays inf
     lay = c.get("layout", "C")
     if lay == "F":
         a = np.asfortranarray(a)
@@ -696,14 +864,22 @@ def impl_call(c, memo=None):
         if inf_grid:
             o["land"] = o["flat"] = {"skip": "infinite bar with a learned grid end"}
         else:
-            o["land"] = core.guarded(lambda: _enc_values(landscaper(False).fit_transform(arrs())))
-            o["flat"] = core.guarded(lambda: _enc_values(landscaper(True).fit_transform(arrs())))
+            def transformed(flatten):
+                r = landscaper(flatten).fit_transform(arrs())
+                e = _enc_values(r)
+                history.scribble(r)     # the caller owns what it got back: a later call must not depend on it
+                return e
+            o["land"] = core.guarded(lambda: transformed(False))
+            o["flat"] = core.guarded(lambda: transformed(True))
 
             def refit():
                 # the same object fitted on OTHER data first: user-fixed ends stay, learned ends are learned afresh
                 t = PersistenceLandscaper(flatten=False, **kw)
                 t.fit([3.0 * a.astype(float) - 1.0 for a in arrs()])
-                return _enc_values(t.fit_transform(arrs()))
+                r = t.fit_transform(arrs())
+                e = _enc_values(r)
+                history.scribble(r)
+                return e
             o["refit"] = core.guarded(refit)
         if c.get("vec"):
             def vec():
@@ -712,6 +888,7 @@ def impl_call(c, memo=None):
                 r = _enc_values(v.values)
                 r["cps"] = [[[float(x), float(y)] for x, y in depth] for depth in e.critical_pairs]
                 r["start"], r["stop"] = float(v.start), float(v.stop)
+                history.scribble(v.values)
                 return r
             o["vec"] = core.guarded(vec)
         if c["dgms"] and c["dgms"][0]:
@@ -762,6 +939,8 @@ def _scope(c):
 def _slack(c, start, stop):
     if c["family"] == "exact":
         return Fraction(0)
+    if c.get("slack_rel"):    # magnitude classes: relative to the larger grid end, no absolute floor
+        return Fraction(c["slack_rel"]) * max(abs(start), abs(stop))
     return Fraction(1, 10 ** 9) * max(1, abs(start), abs(stop))
 
 
@@ -966,6 +1145,9 @@ def _term(c, o):
     sc_stop = Fraction(c["stop"]) if c["stop"] is not None else Fraction(0)
     if c["family"] == "exact":
         tol = Fraction(0)
+    elif c.get("slack_rel"):
+        sc = _scope(c)
+        tol = _slack(c, sc[1], sc[2]) if sc else Fraction(0)
     else:
         tol = Fraction(1, 10 ** 9) * max(1, abs(sc_start), abs(sc_stop))
     dg = core.coq_list([core.coq_list(["(%s, %s)" % (_coq_ext(b), _coq_ext(d)) for b, d in d_]) for d_ in c["dgms"]])
@@ -1069,6 +1251,9 @@ def shrink_candidates(c):
             q = len(dg) // 4
             for lo_, hi_ in ((0, h), (h, len(dg)), (0, q), (len(dg) - q, len(dg))):
                 yield mk(dgms=[dg[:lo_] + dg[hi_:]])
+        elif c["start"] is not None and len(dg) > 1:
+            for j in range(len(dg)):
+                yield mk(dgms=[dg[:j] + dg[j + 1:]])
         return
     if len(c["dgms"]) > 1 and c["hom_deg"] < len(c["dgms"]):
         yield mk(dgms=[c["dgms"][c["hom_deg"]]], hom_deg=0)
@@ -1092,8 +1277,8 @@ def shrink_candidates(c):
 
 
 def search_generate(rng, n):
-    cs = [_exact_case(rng, rng.choice(["on_grid", "half_tie", "off_grid", "mixed", "narrow", "defaults", "dup"]))
-          for _ in range(n // 2)] + [_tol_case(rng) for _ in range(n - n // 2)]
+    cs = [_exact_case(rng, rng.choice(["on_grid", "half_tie", "off_grid", "mixed", "narrow", "defaults", "dup", "tiny", "offset"]))
+          for _ in range(n // 2)] + [_tol_case(rng) if i % 3 else _mag_case(rng, rng.choice(MAG_KINDS)) for i in range(n - n // 2)]
     for c in cs:
         c["vec"] = _vec_ok(c)
     return cs
